@@ -197,6 +197,10 @@ pub fn adf_query(id: &str, qid: &str, q: &[String], adf: &mut Adf, _parser: &Adf
             )
             .unwrap();
         }
+        "depths" => {
+            let d: Vec<String> = adf.ac.iter().map(|t| adf.bdd.max_depth(*t).to_string()).collect();
+            writeln!(out, "{} {} depths {}", id, qid, d.join(",")).unwrap();
+        }
         "acs" => {
             writeln!(out, "{} {} acs {}", id, qid, handles_string(&adf.ac)).unwrap();
         }
